@@ -22,6 +22,7 @@ EXPLANATION = (
     "convertToFree and are forwarded to the reader created for an included file; an extension cannot be "
     "both fixed and free. The equivalence of the two renderings itself is a relation between two runs "
     "and is not decided."
+    " Added after waves 6/7 - a `!` in column 6 is a continuation mark, not a comment; the continuation mark is put before a trailing comment."
 )
 ASSUMPTIONS = ["the card layout of F2008 3.3.2 as restated in the property text"]
 
